@@ -31,6 +31,11 @@ pub enum Readiness {
     PendingTwice,
     /// the inner service reports a readiness error for the second request
     ErrorOnSecond,
+    /// call-multiplying modes only: the second request's first attempt fails, and the instance
+    /// polled for its *further* attempt (the retry, the hedge's clone, the reconnect) reports
+    /// a readiness error. The call must still resolve - with one of its attempts' results or
+    /// with an error - and must not call the instance whose readiness failed.
+    ErrorOnFurtherAttempt,
 }
 
 fn box_err_to_inner(e: tower::BoxError) -> InnerErr {
@@ -58,18 +63,27 @@ pub enum Seen {
     Err(EOut),
     ReadinessErr(EOut),
     Panicked(String),
+    /// did not resolve within a virtual day
+    Hung,
 }
 
 /// Drive one request the way a well-behaved Tower caller does.
 pub fn drive(w: &World, svc: &mut Box<dyn Erased>, req: Req) -> Seen {
     let r = catch_unwind(AssertUnwindSafe(|| {
         w.block_on(async {
-            match futures::future::poll_fn(|cx| svc.poll_ready(cx)).await {
-                Err(e) => Seen::ReadinessErr(e),
-                Ok(()) => match svc.call(req).await {
-                    Ok(r) => Seen::Ok(r),
-                    Err(e) => Seen::Err(e),
-                },
+            let one = async {
+                match futures::future::poll_fn(|cx| svc.poll_ready(cx)).await {
+                    Err(e) => Seen::ReadinessErr(e),
+                    Ok(()) => match svc.call(req).await {
+                        Ok(r) => Seen::Ok(r),
+                        Err(e) => Seen::Err(e),
+                    },
+                }
+            };
+            // the clock is virtual: a call that never resolves runs into this guard at once
+            match tokio::time::timeout(std::time::Duration::from_secs(86_400), one).await {
+                Ok(s) => s,
+                Err(_) => Seen::Hung,
             }
         })
     }));
@@ -108,6 +122,10 @@ pub fn judge(ctx: &mut Ctx, site: &str, config: &str, w: &World, plog: &Arc<Mute
             ctx.viol("panic", site, config.to_string(), hist.clone(), format!("request {} panicked: {p}", req.id));
             continue;
         }
+        if let Seen::Hung = s {
+            ctx.viol("call_never_resolves", site, config.to_string(), hist.clone(), format!("request {} did not resolve within a virtual day", req.id));
+            continue;
+        }
         if readiness_err_on == Some(i) {
             match s {
                 Seen::ReadinessErr(EOut::PassThrough(e)) if e.kind == 5 => {
@@ -139,7 +157,13 @@ pub fn judge(ctx: &mut Ctx, site: &str, config: &str, w: &World, plog: &Arc<Mute
             (CallStatus::Err(e), Seen::Err(EOut::PassThrough(e2))) => e == e2,
             _ => false,
         });
-        if !matches {
+        // a readiness error met by a *further* attempt may end the call with that error (or
+        // with the layer's own error variant) instead of one of the attempts' results
+        let further_readiness_err = readiness_err_on == Some(100 + i) && matches!(s, Seen::Err(EOut::Layer(_)) | Seen::Err(EOut::PassThrough(InnerErr { kind: 5, .. })));
+        if further_readiness_err {
+            ctx.rep.witness("further_attempt_met_readiness_error", 1);
+        }
+        if !matches && !further_readiness_err {
             ctx.viol(
                 "result_changed",
                 site,
@@ -156,9 +180,12 @@ fn single_grid(ctx: &mut Ctx, tier: Tier) {
         let modes: Vec<Mode> = if m.can_multiply() { vec![Mode::Plain, Mode::Multiply, Mode::MultiplyAlt, Mode::Extreme] } else { vec![Mode::Plain, Mode::Extreme] };
         for mode in modes {
             for kind in [Kind::Strict, Kind::Buffer, Kind::ConcurrencyLimit] {
-                for readiness in [Readiness::Ready, Readiness::PendingTwice, Readiness::ErrorOnSecond] {
-                    if readiness == Readiness::ErrorOnSecond && kind != Kind::Strict {
+                for readiness in [Readiness::Ready, Readiness::PendingTwice, Readiness::ErrorOnSecond, Readiness::ErrorOnFurtherAttempt] {
+                    if matches!(readiness, Readiness::ErrorOnSecond | Readiness::ErrorOnFurtherAttempt) && kind != Kind::Strict {
                         continue; // Buffer turns a readiness error into a closed worker
+                    }
+                    if readiness == Readiness::ErrorOnFurtherAttempt && !matches!(mode, Mode::Multiply | Mode::MultiplyAlt) {
+                        continue;
                     }
                     for outcome_code in 0..tier.pick(4u8, 8) {
                         // per request: inner ok or error (bit i)
@@ -196,6 +223,12 @@ fn single_grid(ctx: &mut Ctx, tier: Tier) {
                                             g.ready_script.push_back(ReadyAns::Err(5));
                                         }
                                     }
+                                    Readiness::ErrorOnFurtherAttempt => {
+                                        if i == 1 {
+                                            g.ready_script.push_back(ReadyAns::Ready);
+                                            g.ready_script.push_back(ReadyAns::Err(5));
+                                        }
+                                    }
                                 }
                             }
                             let svc = if i == 2 {
@@ -213,8 +246,8 @@ fn single_grid(ctx: &mut Ctx, tier: Tier) {
                             Mode::Extreme => format!("{}::extreme_configuration", m.name()),
                             Mode::Multiply | Mode::MultiplyAlt => format!("{}::further_attempts", m.name()),
                         };
-                        judge(ctx, &site, &config, &w, &plog, &reqs, &seen, matches!(mode, Mode::Multiply | Mode::MultiplyAlt), if readiness == Readiness::ErrorOnSecond { Some(1) } else { None });
-                        let classes: Vec<&str> = seen.iter().map(|s| match s { Seen::Ok(_) => "ok", Seen::Err(EOut::PassThrough(_)) => "pass_through_err", Seen::Err(_) => "layer_err", Seen::ReadinessErr(_) => "readiness_err", Seen::Panicked(_) => "panic" }).collect();
+                        judge(ctx, &site, &config, &w, &plog, &reqs, &seen, matches!(mode, Mode::Multiply | Mode::MultiplyAlt), match readiness { Readiness::ErrorOnSecond => Some(1), Readiness::ErrorOnFurtherAttempt => Some(101), _ => None });
+                        let classes: Vec<&str> = seen.iter().map(|s| match s { Seen::Ok(_) => "ok", Seen::Err(EOut::PassThrough(_)) => "pass_through_err", Seen::Err(_) => "layer_err", Seen::ReadinessErr(_) => "readiness_err", Seen::Panicked(_) => "panic", Seen::Hung => "hung" }).collect();
                         ctx.rep.distinct.insert(format!("{config}|{classes:?}"));
                         for c in classes {
                             ctx.rep.witness(c, 1);
@@ -353,7 +386,7 @@ fn main() {
         ctx.rep.witness("pair_composed", 0);
     }
     drop(ctx);
-    for w in ["ok", "pass_through_err", "readiness_err", "further_attempts_made", "listener_panicked_and_was_contained", "event_kinds_triggered", "stack_ran"] {
+    for w in ["ok", "pass_through_err", "readiness_err", "further_attempts_made", "further_attempt_met_readiness_error", "listener_panicked_and_was_contained", "event_kinds_triggered", "stack_ran"] {
         rep.require_witness(w);
     }
     rep.bounds = json!({"variants": ALL.len(), "inner_kinds": 3, "readiness_scripts": 3, "listener_subsets": 8});
